@@ -458,7 +458,7 @@ SUBS = [
         "on an even channel count", quick=300, thorough=6000, pieces_quick=4),
     Sub("long_signals", long_case(), lambda case, stt: (run_cdd(case, stt), stt.nt())[0],
         "N in {65537, 69633, 70001, 90000, 100003, 131073} (beyond 2^16, not smooth), one channel, exact per-bin transfer function; all "
-        "non-trivial", quick=6, thorough=60, pieces_quick=3, pieces_thorough=8, budget_quick=120),
+        "non-trivial", quick=8, thorough=64, pieces_quick=2, pieces_thorough=8, budget_quick=120),
     Sub("refusals", G.signal_spec(classes=["Signal", "RadioSignal", "IntensitySignal", "FullStokesSignal"], nmin=2, nmax=8, nchan_max=2,
                                   max_trailing=0), run_err, "non-baseband input must raise TypeError", quick=40, thorough=400, pieces_quick=1),
 ]
